@@ -3,6 +3,7 @@ package render
 import (
 	"github.com/deadsy/sdfx/sdf"
 	v3 "github.com/deadsy/sdfx/vec/v3"
+	"github.com/deadsy/sdfx/vec/v3i"
 )
 
 // Scripted renderers: emit a known sequence of batches through the real
@@ -20,7 +21,7 @@ func (r *vfScript3) Info(s sdf.SDF3) string { return "scripted" }
 
 // batch-size patterns straddling the 256-triangle buffer threshold
 var vfPatterns = [][]int{
-	{}, {0}, {1}, {255}, {256}, {257}, {0, 1, 0}, {1, 255, 1}, {255, 2}, {300, 300}, {5, 5, 5, 250, 5}, {513}, {256, 256, 1},
+	{}, {0}, {1}, {255}, {256}, {257}, {0, 1, 0}, {1, 255, 1}, {255, 2}, {300, 300}, {5, 5, 5, 250, 5}, {513}, {256, 256, 1}, {1, 256}, {3, 300, 2}, {255, 256, 255},
 }
 
 // vfMakeBatches builds the pattern; the first nsym triangles have symbolic
@@ -130,6 +131,11 @@ func vc_C13_stream_equals_batch() {
 	pat := [][]int{{0}, {1}, {3}, {2, 1}}[vfCase("n", 4)]
 	batches, all := vfMakeBatches(pat, 3)
 	p1, p2 := vfOutPath("c13a.stl"), vfOutPath("c13b.stl")
+	if vfCase("existing", 2) == 1 {
+		// both paths already hold a longer file of unknown content (re-rendering over old output)
+		vfPreexisting(p1, 1000)
+		vfPreexisting(p2, 1000)
+	}
 	ToSTL(nil, p1, &vfScript3{batches})
 	err := SaveSTL(p2, all)
 	vfAssert(err == nil, "SaveSTL succeeds")
@@ -229,4 +235,69 @@ func vc_C13_normalize_contract() {
 	vfAssert(r.X*a.X+r.Y*a.Y+r.Z*a.Z > 0, "Normalize: result points the same way")
 	vfAssert((r.X*r.X+r.Y*r.Y+r.Z*r.Z)*a2 == (r.X*a.X+r.Y*a.Y+r.Z*a.Z)*(r.X*a.X+r.Y*a.Y+r.Z*a.Z), "Normalize: |r|^2 |a|^2 = (r.a)^2")
 	vfAssert((r.X*a.X+r.Y*a.Y+r.Z*a.Z)*(r.X*a.X+r.Y*a.Y+r.Z*a.Z) == a2, "Normalize: (r.a)^2 = |a|^2, hence |r| = 1")
+}
+
+// C13: a well-formed ASCII STL loads to the triangles it lists, in order.
+// The file is a scripted line sequence with symbolic numbers; its size is
+// symbolic (>= 84, and not of the form 84 + 50 k, which is what a binary file
+// of k records has).
+func vc_C13_ascii_load() {
+	n := 1 + vfCase("triangles", 2)
+	lines := []string{"solid verif"}
+	for k := 0; k < n; k++ {
+		t := string(rune('a' + k))
+		lines = append(lines, "facet normal 0 0 1", "outer loop",
+			"vertex $ok:"+t+"0x $ok:"+t+"0y $ok:"+t+"0z",
+			"vertex $ok:"+t+"1x $ok:"+t+"1y $ok:"+t+"1z",
+			"vertex $ok:"+t+"2x $ok:"+t+"2y $ok:"+t+"2z",
+			"endloop", "endfacet")
+	}
+	lines = append(lines, "endsolid verif")
+	path, size := vfTextFile("c13ascii.stl", lines...)
+	vfAssume(size >= 84)
+	vfAssume((size-84)%50 != 0)
+	mesh, err := LoadSTL(path)
+	vfReach("ascii")
+	vfAssert(err == nil, "a well-formed ASCII STL loads without error")
+	vfAssert(len(mesh) == n, "a well-formed ASCII STL yields one triangle per facet")
+	for k := 0; k < n && k < len(mesh); k++ {
+		t := string(rune('a' + k))
+		for i := 0; i < 3; i++ {
+			v := string(rune('0' + i))
+			vfAssert(mesh[k][i].X == vfTok(t+v+"x") && mesh[k][i].Y == vfTok(t+v+"y") && mesh[k][i].Z == vfTok(t+v+"z"), "ASCII vertices are loaded in order with their listed coordinates")
+		}
+	}
+}
+
+// C12: the layer evaluator of the uniform marching cubes hands its sample
+// points to the worker pool in batches of 100 and waits for them; it must
+// return (and have every sample filled in) for layer sizes below, at, and
+// above exact multiples of the batch size.
+type vfLinear3 struct{}
+
+func (vfLinear3) BoundingBox() sdf.Box3     { return sdf.Box3{Min: v3.Vec{X: -1, Y: -1, Z: -1}, Max: v3.Vec{X: 1, Y: 1, Z: 1}} }
+func (vfLinear3) Evaluate(p v3.Vec) float64 { return 1 + p.X + 1000*p.Y + p.Z/1024 }
+
+func vc_C12_layer_batches() {
+	sizes := [][2]int{{0, 0}, {1, 1}, {0, 98}, {0, 99}, {0, 100}, {9, 9}, {9, 10}, {3, 24}, {9, 19}, {10, 19}, {19, 19}, {24, 11}}
+	sz := sizes[vfCase("layer", len(sizes))]
+	vfLayerBatches(sz[0], sz[1])
+}
+
+// thorough: every layer shape up to 13 x 31 points
+func vt_C12_layer_batches_all() { vfLayerBatches(vfCase("ny", 13), vfCase("nz", 31)) }
+
+func vfLayerBatches(ny, nz int) {
+	evalRoutines()
+	l := newLayerYZ(v3.Vec{}, v3.Vec{X: 1, Y: 1, Z: 1}, v3i.Vec{X: 1, Y: ny, Z: nz})
+	var s vfLinear3
+	l.Evaluate(s, 0)
+	l.Evaluate(s, 1)
+	vfReach("two layers evaluated")
+	for y := 0; y <= ny; y++ {
+		for z := 0; z <= nz; z++ {
+			vfAssert(l.Get(0, y, z) == s.Evaluate(v3.Vec{X: 0, Y: float64(y), Z: float64(z)}), "layer 0 holds the field value of its lattice point")
+			vfAssert(l.Get(1, y, z) == s.Evaluate(v3.Vec{X: 1, Y: float64(y), Z: float64(z)}), "layer 1 holds the field value of its lattice point")
+		}
+	}
 }
